@@ -257,6 +257,35 @@ func rulesC05Lib(w *World, r *Report) {
 	})
 
 	// ---------- R4: Close reaches no write
+	// neither package removes, renames or rewrites a file by its path: the only way bytes of an existing file change
+	// is through a handle (and then only in Sync)
+	{
+		bad := ""
+		n := 0
+		for _, f := range w.modFuncs {
+			if !w.inModule(f) {
+				continue
+			}
+			n++
+			for _, c := range callsIn(f) {
+				sc := c.Common().StaticCallee()
+				if sc == nil || sc.Pkg == nil {
+					continue
+				}
+				pth, nm := sc.Pkg.Pkg.Path(), sc.Name()
+				if sc.Signature.Recv() != nil {
+					continue // methods of an open handle are C05.R3's own subject
+				}
+				if (pth == "os" && (nm == "Remove" || nm == "RemoveAll" || nm == "Rename" || nm == "Truncate" || nm == "WriteFile" || nm == "Create" || nm == "Link" || nm == "Symlink")) ||
+					(pth == "io/ioutil" && nm == "WriteFile") || (pth == "syscall" && (nm == "Unlink" || nm == "Rename" || nm == "Truncate")) {
+					if bad == "" {
+						bad = funcName(f) + " calls " + pth + "." + nm + " at " + w.instrPos(c)
+					}
+				}
+			}
+		}
+		r.Check(bad == "", "C05.R3", "module:no-path-level-writes", "whisper.go", fmt.Sprintf("%d functions of the module, none removes, renames, truncates or rewrites a file by path", n), bad+": an existing file can lose its contents outside Sync (a clean-up after a failed command deletes a destination that was there before)")
+	}
 	r.Rule("C05.R4", "no-path: from Whisper.Close no call path reaches FileBuffer.Flush, FileBuffer.WriteAt, (*os.File).Sync or Whisper.Sync", 1)
 	isWrite := func(g *ssa.Function) bool {
 		return g == flush || g == writeAt || g == sync || isMethodFunc(g, "os", "File", "Sync") || isMethodFunc(g, "os", "File", "Write") || isMethodFunc(g, "os", "File", "WriteAt") || isMethodFunc(g, "os", "File", "Truncate")
